@@ -401,6 +401,6 @@ STREAMS = [
     Stream("allocate_malformed", gen_alloc_malformed, run_alloc, quick=1500, thorough=60000),
     Stream("allocate_small_universe", gen_alloc_small, run_alloc, quick=1500, thorough=1, shards=16, exhaustive_thorough=True),
     Stream("assign", gen_assign, run_assign, quick=3000, thorough=200000),
-    Stream("driver_step_table", gen_driver, run_driver, quick=240, thorough=8000, shards=16),
+    Stream("driver_step_table", gen_driver, run_driver, quick=240, thorough=80000, shards=16),
     Stream("assign_small_universe", gen_assign_small, run_assign, quick=500, thorough=1, shards=4, exhaustive_thorough=True),
 ]
